@@ -393,6 +393,10 @@ class Check(object):
                 exit_code = 1 if exit_code in (0, 2) else exit_code
                 violations += 1
                 self.say("VIOLATION property=%s replay=%s bounded-check=%s" % (pid, b.get("replay", "-"), b.get("name")))
+            elif b.get("error") or (isinstance(b.get("result"), dict) and b["result"].get("error")):
+                # the bounded stand-in did not run to completion: a checker error, never a verdict
+                exit_code = 3 if exit_code == 0 else exit_code
+                self.say("CHECKER-ERROR bounded stand-in %s: %s" % (b.get("name"), str(b.get("error") or b["result"].get("error"))[-300:]))
         samples = []
         for gname, ur, o, r in rows[:: max(1, len(rows) // 8)][:8]:
             samples.append({"obligation": o.name, "kind": o.kind, "clause": o.clause[:160], "verdict": r["verdict"],
@@ -458,7 +462,7 @@ class Check(object):
         try:
             return fn(self)
         except Exception as e:
-            return [{"name": "bounded stand-in crashed", "error": str(e), "violation": False}]
+            return [{"name": "bounded stand-in crashed", "error": str(e) or type(e).__name__, "violation": False}]
 
 
 def replay_file(pid, path):
